@@ -137,20 +137,37 @@ FORBIDDEN = re.compile(r"\b(sorry|admit|native_decide|bv_decide|implemented_by|u
                        re.M)
 
 
-def source_audit():
-    """no sorry/admit/axiom/native_decide/... anywhere in the Lean sources (comments stripped)"""
-    bad = []
-    for root, _, files in os.walk(LEAN):
-        if ".lake" in root:
+def import_closure(module):
+    """Lean files under lean/ that `module` imports, transitively (modules outside lean/ are toolchain)"""
+    seen = {}
+    todo = [module]
+    while todo:
+        m = todo.pop()
+        if m in seen:
             continue
-        for f in files:
-            if f.endswith(".lean"):
-                p = os.path.join(root, f)
-                s = strip_lean_comments(open(p, encoding="utf-8").read())
-                for m in FORBIDDEN.finditer(s):
-                    # `partial def` I/O loop in the driver is fine; `unsafe` etc. are not
-                    bad.append("%s: %s" % (os.path.relpath(p, VERIF), m.group(0).strip()))
-    return bad
+        f = os.path.join(LEAN, *m.split(".")) + ".lean"
+        if not os.path.exists(f):
+            continue
+        seen[m] = f
+        for line in open(f, encoding="utf-8"):
+            mm = re.match(r"\s*(?:public\s+)?import\s+(\S+)", line)
+            if mm:
+                todo.append(mm.group(1))
+    return seen
+
+
+def source_audit(modules):
+    """no sorry/admit/axiom/native_decide/... in any Lean source the property's theorems and the model
+    driver depend on (comments and strings stripped)"""
+    bad = []
+    files = {}
+    for m in modules:
+        files.update(import_closure(m))
+    for m, p in sorted(files.items()):
+        s = strip_lean_comments(open(p, encoding="utf-8").read())
+        for mm in FORBIDDEN.finditer(s):
+            bad.append("%s: %s" % (os.path.relpath(p, VERIF), mm.group(0).strip()))
+    return bad, sorted(files)
 
 
 def axiom_audit(prop_id, module, names):
@@ -352,7 +369,8 @@ def run_check(P, tier, seed, replay=None):
     lemma_count = 0
     for lm in getattr(P, "LEMMA_FILES", []):
         lemma_count += len(theorem_names(os.path.join(LEAN, lm)))
-    bad_src = source_audit()
+    area_main = "Main." + P.AREA[0].upper() + P.AREA[1:]
+    bad_src, audited = source_audit([module, area_main])
     if bad_src:
         proof_broken.append("forbidden construct in Lean sources: " + "; ".join(bad_src[:10]))
     discharged = 0
@@ -506,6 +524,7 @@ def run_check(P, tier, seed, replay=None):
         "lemmas_in_support": lemma_count,
         "theorems": names,
         "axioms_used": sorted({a for n in names for a in axioms.get(n, [])}),
+        "lean_modules_audited": audited,
         "checker_cmd": "cd lean && lake build %s && lake env lean .work/Audit_%s.lean (#print axioms)" % (module, pid),
         "trusted_base": TRUSTED_BASE + list(getattr(P, "TRUSTED", [])),
         "evaluations": evaluations,
